@@ -164,6 +164,11 @@ class RustBlockingAsyncAnalyzer(RustBaseAnalyzer):
         if _is_inside_blocking_wrapper(call_node):
             return None
 
+        if _is_awaited(call_node):
+            # `fs::read_to_string(p).await` / `TcpStream::connect(a).await` is the async API of the
+            # same name (tokio::fs, tokio::net, async_std ...): std's blocking calls return no future
+            return None
+
         return BlockingCall(
             line=call_node.start_point[0] + 1,
             column=call_node.start_point[1],
@@ -340,7 +345,8 @@ def _matches_short_net_pattern(parts: list[str]) -> bool:
     """
     if len(parts) >= 2 and parts[0] == "net" and parts[1] in _BLOCKING_NET_TYPES:
         return True
-    return False
+    # Type::method after `use std::net::TcpStream;` (awaited calls are filtered by the caller)
+    return len(parts) >= 2 and parts[0] in _BLOCKING_NET_TYPES
 
 
 # Function names that safely wrap blocking operations for async execution
@@ -351,6 +357,12 @@ _ASYNC_WRAPPER_FUNCTIONS = frozenset(
         "block_in_place",
     }
 )
+
+
+def _is_awaited(call_node: Node) -> bool:
+    """Check whether the value of a call expression is awaited directly."""
+    parent = call_node.parent
+    return parent is not None and parent.type == "await_expression"
 
 
 def _is_inside_blocking_wrapper(node: Node) -> bool:
